@@ -129,7 +129,15 @@ func GenPayload(t *rt.Tape, typ, n int) []byte {
 			p[i] = byte(t.S(256))
 		}
 		if n >= 10 {
-			inner := Frame(t.SBytes(1 + t.S(min(n-9, 12))))
+			// (its type drawn like any other frame's, so that it often equals the
+			// type of a frame seen earlier in the stream)
+			ip := t.SBytes(1 + t.S(min(n-9, 12)))
+			ity := GenType(t, false)
+			ip[0] = byte(ity >> 4)
+			if len(ip) >= 2 {
+				ip[1] = ip[1]&0x0f | byte(ity&0xf)<<4
+			}
+			inner := Frame(ip)
 			off := 2 + t.S(n-len(inner)-1)
 			copy(p[off:], inner)
 		}
@@ -252,7 +260,7 @@ func GenJunk(t *rt.Tape) Segment {
 	switch t.SW(30, 30, 20, 20, 3) {
 	case 4:
 		// a long run (longer than any plausible internal buffer: 4096, 8192)
-		n := []int{4095, 4096, 4097, 5000, 8193, 10000}[t.S(6)]
+		n := []int{4095, 4096, 4097, 5000, 8192, 8193, 10000, 12288, 16385, 32769, 65535, 65536, 65537, 70000}[t.SW(4, 4, 4, 4, 3, 3, 3, 2, 1, 1, 1, 1, 1, 1)]
 		b = make([]byte, n)
 		seed := byte(t.S(256))
 		for i := range b {
@@ -478,7 +486,11 @@ func Hash(b []byte) uint64 {
 
 func Describe(segs []Segment) []string {
 	var r []string
-	for _, s := range segs {
+	for i, s := range segs {
+		if i >= 40 {
+			r = append(r, fmt.Sprintf("... %d more segments", len(segs)-i))
+			break
+		}
 		r = append(r, s.String())
 	}
 	return r
@@ -530,7 +542,41 @@ func ApplyLineFaults(t *rt.Tape, segs []Segment, max int) ([]byte, []LineFault) 
 		if at >= len(wire) {
 			at = len(wire) - 1
 		}
-		switch t.SW(4, 2, 3, 2, 2, 2, 1, 2) {
+		switch t.SW(4, 2, 3, 2, 2, 2, 1, 2, 2) {
+		case 8: // nibble-level damage: swap two neighbouring nibbles or rotate a short window of nibbles
+			if at+3 <= len(wire) {
+				get := func(i int) byte { // nibble i of the 3-byte window
+					b := wire[at+i/2]
+					if i%2 == 0 {
+						return b >> 4
+					}
+					return b & 0xf
+				}
+				var nib [6]byte
+				for i := range nib {
+					nib[i] = get(i)
+				}
+				old := nib
+				if t.S(2) == 0 {
+					i := t.S(5)
+					nib[i], nib[i+1] = nib[i+1], nib[i]
+				} else {
+					lo := t.S(4)
+					hi := lo + 2 + t.S(5-lo-1)
+					if hi > 5 {
+						hi = 5
+					}
+					first := nib[lo]
+					copy(nib[lo:hi], nib[lo+1:hi+1])
+					nib[hi] = first
+				}
+				if nib != old {
+					for i := 0; i < 3; i++ {
+						wire[at+i] = nib[2*i]<<4 | nib[2*i+1]
+					}
+					faults = append(faults, LineFault{"nibble-shuffle", at, ""})
+				}
+			}
 		case 0: // bit flip
 			bit := t.S(8)
 			wire[at] ^= 0x80 >> uint(bit)
